@@ -6,6 +6,7 @@ failures as explicit oracle arguments).  `Agree` (`Lemmas/Keyspace.lean`) is the
 document id the set and the store say the same thing, with the same stamp.
 -/
 import Datacake.Lemmas.Keyspace
+import Datacake.Lemmas.Newest
 import Datacake.Props.C04
 import Datacake.Lemmas.SortByTs
 import Datacake.Props.C08
@@ -255,17 +256,17 @@ theorem eq_of_nodup_map {α : Type} (f : α → Nat) (l : List α) (h : (l.map f
 produce; defect D13 lives outside this hypothesis). -/
 def NoDupIds {α : Type} (docs : List (Nat × α)) : Prop := (docs.map (·.1)).Nodup
 
-/-- **agree_onMultiSet**: a `MultiSet` request with pairwise distinct ids — storage succeeding, or
+/-- **agree_onMultiSetCore**: a `MultiSet` request with pairwise distinct ids — storage succeeding, or
 failing after having written an arbitrary sub-list which it reports — keeps set and store in
 agreement: exactly the documents storage reports as written become visible in the set.
 `hacc`: none of the applied entries is refused as too old when its turn comes (it was not too old
 when the request started: `will_apply`; see `DESIGN.md` C02 for when this is automatic). -/
-theorem agree_onMultiSet (F : Nat) (n : Node) (src : Nat) (docs : List Doc) (written : Option (List Nat))
+theorem agree_onMultiSetCore (F : Nat) (n : Node) (src : Nat) (docs : List Doc) (written : Option (List Nat))
     (h : Agree n) (hnd : NoDupIds docs)
     (hacc : ∀ l, (∀ e ∈ l, e ∈ (docs.filter (fun d => willApply n.set d.1 d.2.1)).map (fun d => (d.1, d.2.1))) →
       (l.map (·.1)).Nodup → l.Pairwise (fun a b => a.2 ≤ b.2) → C04.Accepted F n.set (toOps src false l)) :
-    Agree (onMultiSet F n src docs written).1 := by
-  unfold onMultiSet
+    Agree (onMultiSetCore F n src docs written).1 := by
+  unfold onMultiSetCore
   simp only
   generalize hvalid : docs.filter (fun d => willApply n.set d.1 d.2.1) = valid at hacc
   have hvnd : (valid.map (·.1)).Nodup := by
@@ -324,17 +325,17 @@ theorem agree_onMultiSet (F : Nat) (n : Node) (src : Nat) (docs : List Doc) (wri
       exact (store_fold_put n.store w hwnd h.data k).2.1 (fun d hd hk => hno (d.1, d.2.1) ((hfmem _).2 ⟨d, hd, rfl⟩) hk)
     · exact (store_fold_put n.store w hwnd h.data 0).2.2
 
-/-- **agree_onMultiDel**: a `MultiDel` request with pairwise distinct ids — storage succeeding, or
+/-- **agree_onMultiDelCore**: a `MultiDel` request with pairwise distinct ids — storage succeeding, or
 failing after having written an arbitrary sub-list which it reports — keeps set and store in
 agreement: exactly the tombstones storage reports as written become tombstones of the set.
 `hacc`: none of the applied entries is refused as too old when its turn comes (it was not too old
 when the request started: `will_apply`; see `DESIGN.md` C02 for when this is automatic). -/
-theorem agree_onMultiDel (F : Nat) (n : Node) (src : Nat) (docs : List (Nat × Nat)) (written : Option (List Nat))
+theorem agree_onMultiDelCore (F : Nat) (n : Node) (src : Nat) (docs : List (Nat × Nat)) (written : Option (List Nat))
     (h : Agree n) (hnd : NoDupIds docs)
     (hacc : ∀ l, (∀ e ∈ l, e ∈ (docs.filter (fun d => willApply n.set d.1 d.2)).map (fun d => (d.1, d.2))) →
       (l.map (·.1)).Nodup → l.Pairwise (fun a b => a.2 ≤ b.2) → C04.Accepted F n.set (toOps src true l)) :
-    Agree (onMultiDel F n src docs written).1 := by
-  unfold onMultiDel
+    Agree (onMultiDelCore F n src docs written).1 := by
+  unfold onMultiDelCore
   simp only
   generalize hvalid : docs.filter (fun d => willApply n.set d.1 d.2) = valid at hacc
   have hvnd : (valid.map (·.1)).Nodup := by
@@ -599,13 +600,14 @@ def handle (F : Nat) (n : Node) : Req → Node
   | .mdel src docs w => (onMultiDel F n src docs w).1
   | .purge r => (onPurge n r).1
 
-/-- Side conditions of the bulk requests, evaluated at the state in which they arrive. -/
+/-- Side conditions of the bulk requests, evaluated at the state in which they arrive (discharged
+in `Props/C02b.lean`).  Since fix D13 a request may name a document any number of times. -/
 def ReqOk (F : Nat) (n : Node) : Req → Prop
-  | .mset src docs _ => NoDupIds docs ∧
-      ∀ l, (∀ e ∈ l, e ∈ (docs.filter (fun d => willApply n.set d.1 d.2.1)).map (fun d => (d.1, d.2.1))) →
+  | .mset src docs _ =>
+      ∀ l, (∀ e ∈ l, e ∈ ((newest (fun (v : Nat × List Nat) => v.1) docs).filter (fun d => willApply n.set d.1 d.2.1)).map (fun d => (d.1, d.2.1))) →
         (l.map (·.1)).Nodup → l.Pairwise (fun a b => a.2 ≤ b.2) → C04.Accepted F n.set (toOps src false l)
-  | .mdel src docs _ => NoDupIds docs ∧
-      ∀ l, (∀ e ∈ l, e ∈ (docs.filter (fun d => willApply n.set d.1 d.2)).map (fun d => (d.1, d.2))) →
+  | .mdel src docs _ =>
+      ∀ l, (∀ e ∈ l, e ∈ ((newest (fun (t : Nat) => t) docs).filter (fun d => willApply n.set d.1 d.2)).map (fun d => (d.1, d.2))) →
         (l.map (·.1)).Nodup → l.Pairwise (fun a b => a.2 ≤ b.2) → C04.Accepted F n.set (toOps src true l)
   | _ => True
 
@@ -618,9 +620,22 @@ theorem agree_handle (F : Nat) (n : Node) (r : Req) (h : Agree n) (hok : ReqOk F
   cases r with
   | set src d fail => exact agree_onSet F n src d fail h
   | del src id ts fail => exact agree_onDel F n src id ts fail h
-  | mset src docs w => exact agree_onMultiSet F n src docs w h hok.1 hok.2
-  | mdel src docs w => exact agree_onMultiDel F n src docs w h hok.1 hok.2
+  | mset src docs w => exact agree_onMultiSetCore F n src _ w h (newest_nodup _ docs) hok
+  | mdel src docs w => exact agree_onMultiDelCore F n src _ w h (newest_nodup _ docs) hok
   | purge r => exact agree_onPurge n r h
+
+/-- **agree_onMultiSet**: the `MultiSet` handler, for ANY request — a document may be named any
+number of times, in any stamp order (fix D13) — keeps set and store in agreement. -/
+theorem agree_onMultiSet (F : Nat) (n : Node) (src : Nat) (docs : List Doc) (written : Option (List Nat))
+    (h : Agree n) (hok : ReqOk F n (.mset src docs written)) :
+    Agree (onMultiSet F n src docs written).1 :=
+  agree_handle F n (.mset src docs written) h hok
+
+/-- **agree_onMultiDel**: the same for `MultiDel`. -/
+theorem agree_onMultiDel (F : Nat) (n : Node) (src : Nat) (docs : List (Nat × Nat)) (written : Option (List Nat))
+    (h : Agree n) (hok : ReqOk F n (.mdel src docs written)) :
+    Agree (onMultiDel F n src docs written).1 :=
+  agree_handle F n (.mdel src docs written) h hok
 
 /-- **agree_reachable**: after every completed request of every history — single or bulk, any
 stamps, origins and sources, in any arrival order, with storage failing at any of the modelled
@@ -648,14 +663,18 @@ theorem legacy_counterexample :
     storeView (storePut (storePut {} (1, t1, [])) (2, t2, [])) 2 = some (liveRec t2) := by
   decide
 
-/-- Why `NoDupIds` is a hypothesis (D13): a hand-built bulk request carrying one id twice with
-descending stamps — storage applies in request order (the older stamp last), the set in stamp
-order (the newer last).  The public `put_many` cannot produce such a request. -/
+/-- Defect D13 (pinned handler = `onMultiSetCore` on the raw request): a bulk request carrying one
+id twice with descending stamps — storage applies in request order (the older stamp last), the set
+in stamp order (the newer last).  A replica receives such a request when two overlapping mutations
+of one key registered with the distributor out of order.  The current handler (`onMultiSet`, which
+keeps the newest entry per document first) leaves set and store in agreement on the newer one. -/
 theorem dup_ids_descending_disagree :
     let t1 := Ts.pack 5000000 0 0
     let t2 := Ts.pack 5000004 0 0
-    let n := (onMultiSet 3600000 {} 0 [(7, t2, [2]), (7, t1, [1])] none).1
-    view n.set 7 = some (liveRec t2) ∧ storeView n.store 7 = some (liveRec t1) := by
+    let n := (onMultiSetCore 3600000 {} 0 [(7, t2, [2]), (7, t1, [1])] none).1
+    let m := (onMultiSet 3600000 {} 0 [(7, t2, [2]), (7, t1, [1])] none).1
+    view n.set 7 = some (liveRec t2) ∧ storeView n.store 7 = some (liveRec t1) ∧
+    view m.set 7 = some (liveRec t2) ∧ storeView m.store 7 = some (liveRec t2) := by
   decide
 
 /-- Non-vacuity: a concrete failing bulk request satisfies the side conditions, and the handler
@@ -663,7 +682,7 @@ makes exactly the reported document visible. -/
 example :
     let t1 := Ts.pack 5000000 0 1
     let t2 := Ts.pack 5000004 0 2
-    let r := onMultiSet 3600000 {} 0 [(1, t1, [1]), (2, t2, [2])] (some [1])
+    let r := onMultiSetCore 3600000 {} 0 [(1, t1, [1]), (2, t2, [2])] (some [1])
     r.2 = .err [2] ∧ view r.1.set 2 = some (liveRec t2) ∧ view r.1.set 1 = none ∧
     storeView r.1.store 2 = some (liveRec t2) ∧ storeView r.1.store 1 = none := by
   decide
